@@ -21,6 +21,7 @@ package devicefinder_test
 import (
 	"context"
 	"encoding/json"
+	"errors"
 	"fmt"
 	"net"
 	"net/netip"
@@ -28,6 +29,7 @@ import (
 	"path"
 	"slices"
 	"strings"
+	"sync"
 	"testing"
 	"time"
 
@@ -87,22 +89,51 @@ type vc03World struct {
 	Profs    []*vc03Prof
 	Devs     []*vc03Dev
 	ErrStyle int // how not-found errors of the model database are wrapped
+	Fault    int // see the vc03Fault* constants
 
-	// run-time observations
+	// run-time observations, guarded by mu
+	mu          sync.Mutex
 	created     []*agd.Device // devices made by CreateAutoDevice
 	createdProf []*agd.Profile
-	authCalls   int
 	dbContract  []string // violations of the profiledb.Interface argument contract
 }
 
+// Faults of the model database.
+const (
+	vc03FaultNone = iota
+	// vc03FaultDBError: every method fails with an error that is not a
+	// not-found error.
+	vc03FaultDBError
+	// vc03FaultCtxCancelled: the caller's context is already cancelled.  The
+	// in-memory lookups of the real database do not look at the context; the
+	// creation of an automatic device calls the backend and fails.
+	vc03FaultCtxCancelled
+)
+
+var vc03FaultNames = [...]string{"none", "db-error", "ctx-cancelled"}
+
+// errVC03DB is the generic database failure.
+var errVC03DB = errors.New("model db failure")
+
+// resetRuntime forgets what earlier requests left in the observations.
+func (w *vc03World) resetRuntime() {
+	w.mu.Lock()
+	defer w.mu.Unlock()
+
+	w.created, w.createdProf, w.dbContract = nil, nil, nil
+}
+
 var (
-	vc03ProfIDs   = []string{"p1aa", "p2bb", "p3cc", "p4dd"}
+	// The last profile id has the maximum length.
+	vc03ProfIDs   = []string{"p1aa", "p2bb", "p3cc", "p4dd5678"}
 	vc03DevIDs    = []string{"dev1", "dev2", "ab-cd", "x", "abcdefgh", "dev3", "0a1b", "zz9"}
 	vc03Humans    = []string{"my-phone", "tv", "kids--pad", "a1"}
 	vc03Passwords = []string{"s3cret", "Hunter2", "pa55"}
 	vc03LinkedIPs = []netip.Addr{
 		netip.MustParseAddr("203.0.113.1"), netip.MustParseAddr("203.0.113.2"),
 		netip.MustParseAddr("203.0.113.3"), netip.MustParseAddr("2001:db8:1::1"),
+		// A zero-valued address as somebody's linked address.
+		netip.MustParseAddr("0.0.0.0"),
 	}
 	vc03DedicatedIPs = []netip.Addr{
 		netip.MustParseAddr("192.0.2.2"), netip.MustParseAddr("192.0.2.3"),
@@ -172,7 +203,10 @@ func vc03From[E any](t *rapid.T, label string, s []E) (e E) {
 }
 
 func vc03GenWorld(t *rapid.T) (w *vc03World) {
-	w = &vc03World{ErrStyle: vc03Uniform(t, "errStyle", 3)}
+	w = &vc03World{
+		ErrStyle: vc03Uniform(t, "errStyle", 3),
+		Fault:    vc03Pick(t, "fault", 82, 8, 10),
+	}
 
 	nProf := 2 + vc03Uniform(t, "nProf", 3)
 	for i := 0; i < nProf; i++ {
@@ -185,8 +219,9 @@ func vc03GenWorld(t *rapid.T) (w *vc03World) {
 	}
 
 	ids := rapid.Permutation(vc03DevIDs).Draw(t, "devIDs")
+	linkedPool := rapid.Permutation(vc03LinkedIPs).Draw(t, "linkedPool")
 	nDev := 3 + vc03Uniform(t, "nDev", 4)
-	nextLinked, nextDedicated, nextHuman := 0, 0, 0
+	nextLinked, nextDedicated := 0, 0
 	for i := 0; i < nDev; i++ {
 		d := &vc03Dev{
 			ID:       ids[i],
@@ -196,8 +231,8 @@ func vc03GenWorld(t *rapid.T) (w *vc03World) {
 			Password: vc03From(t, "password", vc03Passwords),
 		}
 
-		if nextLinked < len(vc03LinkedIPs) && vc03Chance(t, "hasLinked", 50) {
-			d.Linked = vc03LinkedIPs[nextLinked]
+		if nextLinked < len(linkedPool) && vc03Chance(t, "hasLinked", 50) {
+			d.Linked = linkedPool[nextLinked]
 			nextLinked++
 		}
 
@@ -210,9 +245,18 @@ func vc03GenWorld(t *rapid.T) (w *vc03World) {
 			}
 		}
 
-		if nextHuman < len(vc03Humans) && vc03Chance(t, "hasHuman", 40) {
-			d.Human = vc03Humans[nextHuman]
-			nextHuman++
+		if vc03Chance(t, "hasHuman", 40) {
+			// The key of a human id is (profile, id): the same id may belong to
+			// devices of different profiles, but not of one profile.
+			h := vc03From(t, "human", vc03Humans)
+			taken := false
+			for _, o := range w.Devs {
+				taken = taken || (o.Owner == d.Owner && o.Human == h)
+			}
+
+			if !taken {
+				d.Human = h
+			}
 		}
 
 		w.Devs = append(w.Devs, d)
@@ -249,8 +293,6 @@ func (w *vc03World) build() {
 			auth.DoHAuthOnly = d.Auth == vc03AuthOnDoHOnly
 			auth.PasswordHash = &agdtest.Authenticator{
 				OnAuthenticate: func(_ context.Context, passwd []byte) (ok bool) {
-					w.authCalls++
-
 					return string(passwd) == want
 				},
 			}
@@ -377,8 +419,14 @@ func (w *vc03World) answer(d *vc03Dev) (p *agd.Profile, dev *agd.Device, err err
 // returns deleted profiles with their Deleted flag set.
 func (w *vc03World) db() (db *agdtest.ProfileDB) {
 	contract := func(format string, args ...any) {
+		w.mu.Lock()
+		defer w.mu.Unlock()
+
 		w.dbContract = append(w.dbContract, fmt.Sprintf(format, args...))
 	}
+
+	// faulty reports whether a lookup fails with the generic error.
+	faulty := func() (ok bool) { return w.Fault == vc03FaultDBError }
 
 	checkDevID := func(id agd.DeviceID) {
 		if _, err := agd.NewDeviceID(string(id)); err != nil {
@@ -388,7 +436,7 @@ func (w *vc03World) db() (db *agdtest.ProfileDB) {
 
 	return &agdtest.ProfileDB{
 		OnCreateAutoDevice: func(
-			_ context.Context,
+			ctx context.Context,
 			id agd.ProfileID,
 			humanID agd.HumanID,
 			devType agd.DeviceType,
@@ -401,10 +449,26 @@ func (w *vc03World) db() (db *agdtest.ProfileDB) {
 				contract("invalid device type %d passed to CreateAutoDevice", devType)
 			}
 
+			if faulty() {
+				return nil, nil, errVC03DB
+			}
+
 			mp := w.profByID(string(id))
 			if mp == nil || !mp.Auto {
 				return nil, nil, w.notFound(vc03LookOrphan)
 			}
+
+			if w.Fault == vc03FaultCtxCancelled {
+				// The real database asks the backend here.
+				if ctx.Err() == nil {
+					contract("the caller's cancelled context was not passed to CreateAutoDevice")
+				}
+
+				return nil, nil, fmt.Errorf("model backend: %w", context.Canceled)
+			}
+
+			w.mu.Lock()
+			defer w.mu.Unlock()
 
 			d = &agd.Device{
 				Auth:             &agd.AuthSettings{PasswordHash: agdpasswd.AllowAuthenticator{}},
@@ -423,11 +487,18 @@ func (w *vc03World) db() (db *agdtest.ProfileDB) {
 				contract("invalid dedicated ip passed to the database")
 			}
 
+			if faulty() {
+				return nil, nil, errVC03DB
+			}
+
 			return w.answer(w.devByDedicated(ip))
 		},
 
 		OnProfileByDeviceID: func(_ context.Context, id agd.DeviceID) (*agd.Profile, *agd.Device, error) {
 			checkDevID(id)
+			if faulty() {
+				return nil, nil, errVC03DB
+			}
 
 			return w.answer(w.devByID(string(id)))
 		},
@@ -443,6 +514,10 @@ func (w *vc03World) db() (db *agdtest.ProfileDB) {
 
 			if _, err = agd.NewProfileID(string(id)); err != nil {
 				contract("invalid profile id %q passed to the database", id)
+			}
+
+			if faulty() {
+				return nil, nil, errVC03DB
 			}
 
 			mp := w.profByID(string(id))
@@ -461,6 +536,10 @@ func (w *vc03World) db() (db *agdtest.ProfileDB) {
 		OnProfileByLinkedIP: func(_ context.Context, ip netip.Addr) (*agd.Profile, *agd.Device, error) {
 			if !ip.IsValid() {
 				contract("invalid linked ip passed to the database")
+			}
+
+			if faulty() {
+				return nil, nil, errVC03DB
 			}
 
 			return w.answer(w.devByLinked(ip))
@@ -550,6 +629,18 @@ func vc03CaseVariant(t *rapid.T, s string) (v string) {
 	}
 }
 
+// vc03NearID draws a string that differs from an existing device id by one
+// character at the end: truncated by one, or extended by one (which for an id
+// of the maximum length gives the shortest over-long string).
+func vc03NearID(t *rapid.T, w *vc03World) (s string) {
+	id := vc03From(t, "nearDev", w.Devs).ID
+	if len(id) > 1 && vc03Chance(t, "nearTruncate", 50) {
+		return id[:len(id)-1]
+	}
+
+	return id + vc03From(t, "nearExtra", []string{"1", "z", "h", "i"})
+}
+
 // vc03GenIdent draws an identifier string as it appears in a URL path segment
 // or as the first label of a TLS server name.
 func vc03GenIdent(t *rapid.T, w *vc03World) (s string) {
@@ -585,11 +676,17 @@ func vc03GenIdent(t *rapid.T, w *vc03World) (s string) {
 		}
 
 		var prof string
-		switch vc03Pick(t, "extProf", 80, 10, 5, 5) {
+		switch vc03Pick(t, "extProf", 75, 15, 5, 5) {
 		case 0:
 			prof = vc03CaseVariant(t, vc03From(t, "extProfIdx", w.Profs).ID)
 		case 1:
-			prof = "p9zz"
+			// One character more or less than an existing profile id.
+			prof = vc03From(t, "extProfNear", w.Profs).ID
+			if vc03Chance(t, "extProfTruncate", 50) {
+				prof = prof[:len(prof)-1]
+			} else {
+				prof += "9"
+			}
 		case 2:
 			prof = "p12345678"
 		default:
@@ -601,7 +698,7 @@ func vc03GenIdent(t *rapid.T, w *vc03World) (s string) {
 		case 0:
 			human = vc03CaseVariant(t, vc03From(t, "extHumanIdx", vc03Humans))
 		case 1:
-			human = vc03From(t, "extHumanNew", []string{"new-dev", "Laptop", "n2"})
+			human = vc03From(t, "extHumanNew", []string{"new-dev", "Laptop", "n2", "t", "tvv", strings.Repeat("b", 63)})
 		case 2:
 			// Needs normalisation.
 			human = vc03From(t, "extHumanNorm", []string{"My_Phone", "tv!", "a1---b2", "-tv"})
@@ -611,6 +708,10 @@ func vc03GenIdent(t *rapid.T, w *vc03World) (s string) {
 
 		return typ + "-" + prof + "-" + human
 	case 2:
+		if vc03Chance(t, "identNear", 60) {
+			return vc03CaseVariant(t, vc03NearID(t, w))
+		}
+
 		return vc03From(t, "identUnknown", []string{"nodev", "dev9", "q"})
 	case 3:
 		return vc03From(t, "identBad", []string{"toolongid9", "bad!id", "-abc", "abc-", "de_v1"})
@@ -624,14 +725,26 @@ func vc03GenCase(t *rapid.T) (c *vc03Case) {
 }
 
 func vc03GenCaseProto(t *rapid.T, proto agd.Protocol) (c *vc03Case) {
-	w := vc03GenWorld(t)
-	c = &vc03Case{
+	c = vc03GenSettings(t, vc03GenWorld(t), proto)
+	vc03GenRequest(t, c)
+
+	return c
+}
+
+// vc03GenSettings draws the server side of a case.
+func vc03GenSettings(t *rapid.T, w *vc03World, proto agd.Protocol) (c *vc03Case) {
+	return &vc03Case{
 		World:    w,
 		Proto:    proto,
 		LinkedOn: rapid.Bool().Draw(t, "linkedOn"),
 		Bind:     vc03Pick(t, "bind", 20, 20, 40, 20),
 		Domains:  vc03DomainSets[vc03Pick(t, "domains", 15, 35, 20, 15, 15)],
 	}
+}
+
+// vc03GenRequest draws the request side of a case.
+func vc03GenRequest(t *rapid.T, c *vc03Case) {
+	c.Path, c.UI, c.SNI, c.HasOPT, c.Opts, c.Notes = "", nil, "", false, nil, nil
 
 	isDoH := c.Proto == agd.ProtoDoH
 	hasTLS := isDoH || c.Proto == agd.ProtoDoT || c.Proto == agd.ProtoDoQ
@@ -643,7 +756,7 @@ func vc03GenCaseProto(t *rapid.T, proto agd.Protocol) (c *vc03Case) {
 
 	// Userinfo.
 	if isDoH && vc03Chance(t, "hasUserinfo", 50) {
-		c.UI = vc03GenUserinfo(t, w)
+		c.UI = vc03GenUserinfo(t, c.World)
 	}
 
 	// TLS server name.
@@ -654,9 +767,14 @@ func vc03GenCaseProto(t *rapid.T, proto agd.Protocol) (c *vc03Case) {
 	// EDNS options, on every transport.
 	vc03GenEDNS(t, c)
 
-	// Local address.
+	vc03GenLaddr(t, c)
+	vc03GenRaddr(t, c)
+}
+
+func vc03GenLaddr(t *rapid.T, c *vc03Case) {
+	w := c.World
 	port := uint16(53)
-	switch vc03Pick(t, "laddr", 35, 5, 35, 10, 15) {
+	switch vc03Pick(t, "laddr", 35, 5, 35, 10, 5, 10) {
 	case 0:
 		c.Laddr = netip.AddrPortFrom(vc03OwnAddr, port)
 	case 1:
@@ -677,11 +795,16 @@ func vc03GenCaseProto(t *rapid.T, proto agd.Protocol) (c *vc03Case) {
 		}
 	case 3:
 		c.Laddr = netip.AddrPortFrom(vc03From(t, "laddrPool", vc03DedicatedIPs), port)
+	case 4:
+		// The zero host of the bound subnet.
+		c.Laddr = netip.AddrPortFrom(netip.MustParseAddr("192.0.2.0"), port)
 	default:
 		c.Laddr = netip.AddrPortFrom(vc03OutsideAddr, port)
 	}
+}
 
-	// Remote address.
+func vc03GenRaddr(t *rapid.T, c *vc03Case) {
+	w := c.World
 	switch vc03Pick(t, "raddr", 45, 15, 40) {
 	case 0:
 		var withLinked []*vc03Dev
@@ -701,8 +824,99 @@ func vc03GenCaseProto(t *rapid.T, proto agd.Protocol) (c *vc03Case) {
 	default:
 		c.Raddr = netip.AddrPortFrom(vc03OtherClient, 12345)
 	}
+}
 
-	return c
+// vc03NearMiss returns a copy of c in the same world with exactly one
+// component of the request or of the server settings changed, and the name of
+// the change.  It resets the world's run-time observations.
+func vc03NearMiss(t *rapid.T, c *vc03Case) (n *vc03Case, what string) {
+	cp := *c
+	n = &cp
+	n.Notes = nil
+	n.World.resetRuntime()
+
+	var kinds []string
+	if c.UI != nil {
+		kinds = append(kinds, "password", "password", "user", "user", "no-userinfo")
+	} else if c.Proto == agd.ProtoDoH {
+		kinds = append(kinds, "add-userinfo", "path", "path")
+	}
+
+	if c.SNI != "" {
+		kinds = append(kinds, "sni-case", "sni-label", "sni")
+	}
+
+	if c.Proto == agd.ProtoDNS {
+		kinds = append(kinds, "edns", "edns", "laddr", "raddr", "linked-flag", "bind")
+	} else {
+		kinds = append(kinds, "edns", "laddr", "raddr", "domains")
+	}
+
+	what = vc03From(t, "nearMiss", kinds)
+	switch what {
+	case "password":
+		// The same user with another kind of password.
+		ui := *c.UI
+		right := "whatever"
+		if d := n.World.devByID(strings.ToLower(ui.User)); d != nil {
+			right = d.Password
+		}
+
+		switch {
+		case ui.Kind != "right":
+			ui.PwSet, ui.Pw, ui.Kind = true, right, "right"
+		case vc03Chance(t, "nearPwEmpty", 30):
+			ui.PwSet, ui.Pw, ui.Kind = true, "", "empty"
+		case vc03Chance(t, "nearPwUnset", 30):
+			ui.PwSet, ui.Pw, ui.Kind = false, "", "unset"
+		default:
+			ui.PwSet, ui.Pw, ui.Kind = true, right+"x", "wrong"
+		}
+
+		n.UI = &ui
+	case "user":
+		// The same password under another device's name.
+		ui := *c.UI
+		ui.User = vc03From(t, "nearUser", n.World.Devs).ID
+		ui.Kind = "other-user"
+		n.UI = &ui
+	case "no-userinfo":
+		n.UI = nil
+	case "add-userinfo":
+		n.UI = vc03GenUserinfo(t, n.World)
+	case "path":
+		n.Path = vc03GenPath(t, n)
+	case "sni-case":
+		if n.SNI == strings.ToLower(n.SNI) {
+			n.SNI = strings.ToUpper(n.SNI)
+		} else {
+			n.SNI = strings.ToLower(n.SNI)
+		}
+	case "sni-label":
+		// One more label between the first label and the rest.
+		if i := strings.IndexByte(n.SNI, '.'); i >= 0 {
+			n.SNI = n.SNI[:i] + ".x" + n.SNI[i:]
+		} else {
+			n.SNI = "x." + n.SNI
+		}
+	case "sni":
+		n.SNI = vc03GenSNI(t, n)
+	case "edns":
+		n.HasOPT, n.Opts = false, nil
+		vc03GenEDNS(t, n)
+	case "laddr":
+		vc03GenLaddr(t, n)
+	case "raddr":
+		vc03GenRaddr(t, n)
+	case "linked-flag":
+		n.LinkedOn = !n.LinkedOn
+	case "bind":
+		n.Bind = (n.Bind + 1 + vc03Uniform(t, "nearBind", 3)) % 4
+	case "domains":
+		n.Domains = vc03DomainSets[vc03Uniform(t, "nearDomains", len(vc03DomainSets))]
+	}
+
+	return n, what
 }
 
 func vc03GenPath(t *rapid.T, c *vc03Case) (p string) {
@@ -762,7 +976,7 @@ func vc03GenUserinfo(t *rapid.T, w *vc03World) (ui *vc03Userinfo) {
 		named = vc03From(t, "userDevUpper", w.Devs)
 		ui.User = strings.ToUpper(named.ID)
 	case 2:
-		ui.User = vc03From(t, "userUnknown", []string{"nodev", "dev9"})
+		ui.User = vc03NearID(t, w)
 	default:
 		ui.User = vc03From(t, "userBad", []string{"", "toolongid9", "bad!id", "otr-p1aa-tv"})
 	}
@@ -849,7 +1063,7 @@ func vc03GenEDNS(t *rapid.T, c *vc03Case) {
 		case 1:
 			o.Data = strings.ToUpper(vc03From(t, "cpeDevUpper", w.Devs).ID)
 		case 2:
-			o.Data = "nodev"
+			o.Data = vc03NearID(t, w)
 		default:
 			o.Data = vc03From(t, "cpeBad", []string{"", "toolongid9", "bad!id"})
 		}
@@ -996,6 +1210,7 @@ func (c *vc03Case) describe() (m map[string]any) {
 		"profiles":  profs,
 		"devices":   devs,
 		"err_style": c.World.ErrStyle,
+		"fault":     vc03FaultNames[c.World.Fault],
 		"sni":       c.SNI,
 		"has_opt":   c.HasOPT,
 		"opts":      fmt.Sprintf("%v", c.Opts),
@@ -1193,7 +1408,15 @@ func vc03Oracle(c *vc03Case, o vc03Opts) (v vc03Verdict) {
 	}
 
 	// byDevID resolves a device identifier.
+	dbError := func(via string) (v vc03Verdict) {
+		return vc03Verdict{Kind: vc03Error, Via: via, Why: "db-error"}
+	}
+
 	byDevID := func(id, via string) (v vc03Verdict) {
+		if w.Fault == vc03FaultDBError {
+			return dbError(via)
+		}
+
 		d := w.devByID(id)
 		switch w.state(d) {
 		case vc03LookNone:
@@ -1216,6 +1439,10 @@ func vc03Oracle(c *vc03Case, o vc03Opts) (v vc03Verdict) {
 			}
 
 			via += "+humanid"
+			if w.Fault == vc03FaultDBError {
+				return dbError(via)
+			}
+
 			p := w.profByID(profID)
 			if p == nil {
 				return vc03Verdict{Kind: vc03Nil, Via: via, Why: "no-such-profile"}
@@ -1227,6 +1454,10 @@ func vc03Oracle(c *vc03Case, o vc03Opts) (v vc03Verdict) {
 
 			if !p.Auto {
 				return vc03Verdict{Kind: vc03Nil, Via: via, Why: "auto-devices-off"}
+			}
+
+			if w.Fault == vc03FaultCtxCancelled {
+				return vc03Verdict{Kind: vc03Error, Via: via, Why: "ctx-cancelled-create"}
 			}
 
 			if p.Deleted {
@@ -1302,6 +1533,10 @@ func vc03Oracle(c *vc03Case, o vc03Opts) (v vc03Verdict) {
 	}
 
 	if c.bindsToInterfaces() && !c.isOwnAddr() {
+		if w.Fault == vc03FaultDBError {
+			return dbError("dedicated")
+		}
+
 		d := w.devByDedicated(c.Laddr.Addr())
 		if w.state(d) != vc03LookOK {
 			return vc03Verdict{Kind: vc03UnknownDedicated, Via: "dedicated", Why: "unknown-dedicated"}
@@ -1312,6 +1547,10 @@ func vc03Oracle(c *vc03Case, o vc03Opts) (v vc03Verdict) {
 
 	if !c.LinkedOn {
 		return vc03Verdict{Kind: vc03Nil, Via: "none", Why: "no-identifier"}
+	}
+
+	if w.Fault == vc03FaultDBError {
+		return dbError("linked")
 	}
 
 	d := w.devByLinked(c.Raddr.Addr())
@@ -1732,6 +1971,48 @@ func (c *vc03Case) references() (ok bool) {
 	return w.devByDedicated(c.Laddr.Addr()) != nil || w.devByLinked(c.Raddr.Addr()) != nil
 }
 
+// namedDevices returns the number of different device records that the
+// channels of the request name, whether valid for the transport or not.
+func (c *vc03Case) namedDevices() (n int) {
+	w := c.World
+	named := map[*vc03Dev]bool{}
+	mark := func(s string) {
+		for _, d := range w.Devs {
+			if vc03IdentMatches(s, w.Profs[d.Owner].pOrStub(), d.d) {
+				named[d] = true
+			}
+		}
+	}
+
+	if c.UI != nil {
+		mark(c.UI.User)
+	}
+
+	if c.Proto == agd.ProtoDoH {
+		for _, seg := range vc03PathSegments(c.Path) {
+			mark(seg)
+		}
+	}
+
+	if i := strings.IndexByte(c.SNI, '.'); i > 0 {
+		mark(c.SNI[:i])
+	}
+
+	for _, o := range c.Opts {
+		mark(o.Data)
+	}
+
+	if d := w.devByDedicated(c.Laddr.Addr()); d != nil {
+		named[d] = true
+	}
+
+	if d := w.devByLinked(c.Raddr.Addr()); d != nil {
+		named[d] = true
+	}
+
+	return len(named)
+}
+
 func (p *vc03Prof) pOrStub() (ap *agd.Profile) {
 	if p.p != nil {
 		return p.p
@@ -1806,6 +2087,13 @@ func vc03Record(st *vstat.Stats, c *vc03Case, vs []vc03Verdict, matched int, g v
 		}
 	case vc03Error:
 		classes = append(classes, "error:"+v.Via+":"+v.Why)
+		if v.Why == "db-error" || v.Why == "ctx-cancelled-create" {
+			classes = append(classes, "fault:"+v.Why)
+		}
+	}
+
+	if n := c.namedDevices(); n > 1 {
+		classes = append(classes, "channels-conflict")
 	}
 
 	// Identifiers that must be ignored on this transport.
@@ -1858,8 +2146,38 @@ func (c *vc03Case) finder() (f *devicefinder.Default) {
 	})
 }
 
+// ctx returns the context of the request as the dnsserver package builds it;
+// it is already cancelled if the world says so.
+func (c *vc03Case) ctx() (ctx context.Context) {
+	ctx = context.Background()
+	if c.World.Fault == vc03FaultCtxCancelled {
+		var cancel context.CancelFunc
+		ctx, cancel = context.WithCancel(ctx)
+		cancel()
+	}
+
+	return dnsserver.ContextWithRequestInfo(ctx, c.srvReqInfo())
+}
+
+// netAddrs returns the addresses as the servers of the transport report them.
+func (c *vc03Case) netAddrs() (laddr, raddr net.Addr) {
+	switch c.Proto {
+	case agd.ProtoDoT, agd.ProtoDoH:
+		return net.TCPAddrFromAddrPort(c.Laddr), net.TCPAddrFromAddrPort(c.Raddr)
+	default:
+		return net.UDPAddrFromAddrPort(c.Laddr), net.UDPAddrFromAddrPort(c.Raddr)
+	}
+}
+
+// vc03Flips reports whether two verdicts differ in what the client gets.
+func vc03Flips(a, b vc03Verdict) (ok bool) {
+	return a.Kind != b.Kind || a.Dev != b.Dev || a.Prof != b.Prof
+}
+
 var vc03Required = []string{
 	"nontrivial",
+	"channels-conflict", "fault:db-error", "fault:ctx-cancelled-create",
+	"near-miss", "near-miss-flips-verdict",
 	"ok-via-userinfo", "ok-via-path", "ok-via-sni", "ok-via-cpe", "ok-via-dedicated", "ok-via-linked",
 	"ok-via-humanid", "ok-auto-created", "ok-sni-case-variant",
 	"dohonly-ok", "right-password-ok",
@@ -1881,10 +2199,28 @@ func TestVerifC03Find(t *testing.T) {
 		c := vc03GenCase(t)
 		f := c.finder()
 
-		ctx := dnsserver.ContextWithRequestInfo(context.Background(), c.srvReqInfo())
-		r := f.Find(ctx, c.msg(), c.Raddr, c.Laddr)
+		r := f.Find(c.ctx(), c.msg(), c.Raddr, c.Laddr)
+		first, _ := vc03Evaluate(t, st, c, r)
 
-		vc03Evaluate(t, st, c, r)
+		if !vc03Chance(t, "followUp", 60) {
+			return
+		}
+
+		// A near miss of the same request, served by the same finder unless
+		// the server settings are what changed.
+		n, what := vc03NearMiss(t, c)
+		switch what {
+		case "linked-flag", "bind", "domains":
+			f = n.finder()
+		}
+
+		r = f.Find(n.ctx(), n.msg(), n.Raddr, n.Laddr)
+		second, _ := vc03Evaluate(t, st, n, r)
+
+		st.Class("near-miss", "near-miss:"+what)
+		if vc03Flips(first, second) {
+			st.Class("near-miss-flips-verdict", "near-miss-flips:"+what)
+		}
 	})
 }
 
@@ -1918,7 +2254,8 @@ func TestVerifC03Middleware(t *testing.T) {
 	st := vstat.New("C03", "devicefinder.middleware",
 		"the same generated cases sent through ratelimitmw.Middleware.Wrap (one long-lived middleware per transport, real finder behind it); the next handler's agd.RequestInfo is compared with the decision table; non-trivial as in devicefinder.find",
 		"nontrivial", "mw:profile-visible", "mw:served-anonymous-after-authfail", "mw:served-anonymous",
-		"mw:dropped-unknown-dedicated", "mw:failed-with-error")
+		"mw:dropped-unknown-dedicated", "mw:failed-with-error", "mw:reused-middleware",
+		"mw:near-miss", "mw:near-miss-flips-verdict", "mw:anonymous-after-profile", "mw:profile-after-other-profile")
 	st.Finish(t)
 
 	global := agdtest.NewConstructor(t)
@@ -1982,15 +2319,12 @@ func TestVerifC03Middleware(t *testing.T) {
 	}
 
 	// serve sends one case through the stack and checks what came out.
-	serve := func(t *rapid.T, s *stack, c *vc03Case) {
+	serve := func(t *rapid.T, s *stack, c *vc03Case) (primary vc03Verdict, g vc03Got) {
 		*s.seen = vc03Seen{}
 		s.sw.cur, s.sw.last, s.sw.calls = c.finder(), nil, 0
 
-		ctx := dnsserver.ContextWithRequestInfo(context.Background(), c.srvReqInfo())
-		rw := dnsserver.NewNonWriterResponseWriter(
-			net.UDPAddrFromAddrPort(c.Laddr),
-			net.UDPAddrFromAddrPort(c.Raddr),
-		)
+		ctx := c.ctx()
+		rw := dnsserver.NewNonWriterResponseWriter(c.netAddrs())
 		req := c.msg()
 		err := s.h.ServeDNS(ctx, rw, req)
 
@@ -1998,8 +2332,7 @@ func TestVerifC03Middleware(t *testing.T) {
 			t.Fatalf("C03 middleware: finder called %d times\ncase: %s", s.sw.calls, c)
 		}
 
-		primary, g := vc03Evaluate(t, st, c, s.sw.last)
-		_ = primary
+		primary, g = vc03Evaluate(t, st, c, s.sw.last)
 
 		seen := s.seen
 		fail := func(format string, args ...any) {
@@ -2018,7 +2351,7 @@ func TestVerifC03Middleware(t *testing.T) {
 
 			st.Class("mw:failed-with-error")
 
-			return
+			return primary, g
 		case vc03UnknownDedicated:
 			if seen.calls != 0 || rw.Msg() != nil || err != nil {
 				fail("a request to an unknown dedicated address was not dropped silently (calls %d, err %v)", seen.calls, err)
@@ -2026,7 +2359,7 @@ func TestVerifC03Middleware(t *testing.T) {
 
 			st.Class("mw:dropped-unknown-dedicated")
 
-			return
+			return primary, g
 		}
 
 		if err != nil {
@@ -2056,7 +2389,7 @@ func TestVerifC03Middleware(t *testing.T) {
 
 			st.Class("mw:profile-visible")
 
-			return
+			return primary, g
 		}
 
 		// nil or authentication failure: served, and served as anonymous.
@@ -2073,6 +2406,8 @@ func TestVerifC03Middleware(t *testing.T) {
 		} else {
 			st.Class("mw:served-anonymous")
 		}
+
+		return primary, g
 	}
 
 	rapid.Check(t, func(t *rapid.T) {
@@ -2081,17 +2416,23 @@ func TestVerifC03Middleware(t *testing.T) {
 		// seen by the next one, and a failure is reproducible from the case
 		// alone.
 		stacks := map[agd.Protocol]*stack{}
-		n := 1 + vc03Uniform(t, "requests", 3)
-		var prev agd.Protocol
+		lastKind := map[agd.Protocol]vc03Got{}
+		n := 1 + vc03Uniform(t, "requests", 4)
+		var prev *vc03Case
+		var prevVerdict vc03Verdict
 		for i := 0; i < n; i++ {
 			var c *vc03Case
-			if i > 0 && vc03Chance(t, "sameProto", 65) {
-				c = vc03GenCaseProto(t, prev)
-			} else {
+			what := ""
+			switch {
+			case i > 0 && vc03Chance(t, "nearMissNext", 40):
+				// The previous request with one component changed.
+				c, what = vc03NearMiss(t, prev)
+			case i > 0 && vc03Chance(t, "sameProto", 65):
+				c = vc03GenCaseProto(t, prev.Proto)
+			default:
 				c = vc03GenCase(t)
 			}
 
-			prev = c.Proto
 			s := stacks[c.Proto]
 			if s == nil {
 				s = newStack(c.Proto)
@@ -2100,7 +2441,232 @@ func TestVerifC03Middleware(t *testing.T) {
 				st.Class("mw:reused-middleware")
 			}
 
-			serve(t, s, c)
+			verdict, g := serve(t, s, c)
+
+			if what != "" {
+				st.Class("mw:near-miss", "mw:near-miss:"+what)
+				if vc03Flips(prevVerdict, verdict) {
+					st.Class("mw:near-miss-flips-verdict")
+				}
+			}
+
+			// What kind of requester used this middleware's pool before.
+			if before, ok := lastKind[c.Proto]; ok && before.Kind == vc03OK {
+				switch {
+				case g.Kind == vc03Nil || g.Kind == vc03AuthFail:
+					st.Class("mw:anonymous-after-profile")
+				case g.Kind == vc03OK && g.Prof != before.Prof:
+					st.Class("mw:profile-after-other-profile")
+				}
+			}
+
+			lastKind[c.Proto] = g
+			prev, prevVerdict = c, verdict
+		}
+	})
+}
+
+// vc03ConcObs is what one request of the concurrent part observed.
+type vc03ConcObs struct {
+	result  agd.DeviceResult
+	prof    *agd.Profile
+	dev     *agd.Device
+	ttl     uint32
+	global  bool
+	served  int
+	err     error
+	diverse string // non-empty if the iterations of one request disagreed
+}
+
+// vc03RecFinder records the finder's results by message id.
+type vc03RecFinder struct {
+	f   agd.DeviceFinder
+	res []agd.DeviceResult // indexed by message id; one writer per index at a time
+}
+
+func (f *vc03RecFinder) Find(ctx context.Context, req *dns.Msg, raddr, laddr netip.AddrPort) (r agd.DeviceResult) {
+	r = f.f.Find(ctx, req, raddr, laddr)
+	f.res[req.Id] = r
+
+	return r
+}
+
+// TestVerifC03Concurrent sends several different requests of one world at the
+// same time, repeatedly, through one finder and one middleware, and checks
+// that every requester got the outcome of its own request.  Schedules are
+// sampled, not owned; the run is built with the race detector.
+func TestVerifC03Concurrent(t *testing.T) {
+	st := vstat.New("C03", "devicefinder.concurrent",
+		"rapid: one world and server, 3-8 different requests (half of them near misses of another one), each repeated by its own goroutine through one devicefinder.Default and one ratelimitmw.Middleware under -race; every observation is compared with the decision table of its own request; non-trivial as in devicefinder.find",
+		"nontrivial", "conc:batch", "conc:distinct-outcomes-in-batch", "conc:profile-visible", "conc:anonymous")
+	st.Finish(t)
+
+	global := agdtest.NewConstructor(t)
+	const globalTTL = agdtest.FilteredResponseTTLSec
+	iterations := vstat.Scale(12, 40)
+
+	rapid.Check(t, func(t *rapid.T) {
+		w := vc03GenWorld(t)
+		// Automatic devices make the database stateful; the sequential parts
+		// cover them.
+		for _, p := range w.Profs {
+			p.Auto = false
+		}
+
+		w.build()
+
+		base := vc03GenSettings(t, w, vc03Protos[vc03Pick(t, "proto", 30, 15, 10, 40, 5)])
+		vc03GenRequest(t, base)
+
+		cases := []*vc03Case{base}
+		n := 3 + vc03Uniform(t, "batch", 6)
+		for len(cases) < n {
+			var c *vc03Case
+			what := ""
+			for {
+				if vc03Chance(t, "batchNear", 50) {
+					c, what = vc03NearMiss(t, vc03From(t, "batchOf", cases))
+				} else {
+					cp := *base
+					c = &cp
+					vc03GenRequest(t, c)
+				}
+
+				// One server serves the whole batch.
+				if what != "linked-flag" && what != "bind" && what != "domains" {
+					break
+				}
+			}
+
+			cases = append(cases, c)
+		}
+
+		w.resetRuntime()
+
+		rec := &vc03RecFinder{f: base.finder(), res: make([]agd.DeviceResult, len(cases))}
+		obs := make([]vc03ConcObs, len(cases))
+		mw := ratelimitmw.New(&ratelimitmw.Config{
+			Logger:           vc03Logger,
+			Messages:         global,
+			FilteringGroup:   &agd.FilteringGroup{},
+			ServerGroup:      &agd.ServerGroup{},
+			Server:           &agd.Server{Name: "vc03", Protocol: base.Proto},
+			StructuredErrors: agdtest.NewSDEConfig(true),
+			AccessManager: &agdtest.AccessManager{
+				OnIsBlockedHost: func(string, uint16) bool { return false },
+				OnIsBlockedIP:   func(netip.Addr) bool { return false },
+			},
+			DeviceFinder: rec,
+			ErrColl:      agdtest.NewErrorCollector(),
+			GeoIP: &agdtest.GeoIP{
+				OnData: func(string, netip.Addr) (*geoip.Location, error) { return nil, nil },
+			},
+			Metrics:    ratelimitmw.EmptyMetrics{},
+			Limiter:    agdtest.NewRateLimit(),
+			Protocols:  nil,
+			EDEEnabled: true,
+		})
+
+		h := mw.Wrap(dnsserver.HandlerFunc(func(ctx context.Context, rw dnsserver.ResponseWriter, req *dns.Msg) (err error) {
+			o := &obs[req.Id]
+			o.served++
+			ri := agd.MustRequestInfoFromContext(ctx)
+			o.result = ri.DeviceResult
+			o.prof, o.dev = ri.DeviceData()
+			o.global = ri.Messages == global
+
+			resp, err := ri.Messages.NewRespTXT(req, "c03")
+			if err != nil {
+				return err
+			}
+
+			o.ttl = resp.Answer[0].Header().Ttl
+
+			return rw.WriteMsg(ctx, req, resp)
+		}))
+
+		start := make(chan struct{})
+		wg := &sync.WaitGroup{}
+		for i, c := range cases {
+			wg.Add(1)
+			go func(i int, c *vc03Case) {
+				defer wg.Done()
+
+				var first vc03ConcObs
+				var firstRes agd.DeviceResult
+				<-start
+				for k := 0; k < iterations; k++ {
+					obs[i] = vc03ConcObs{}
+					rec.res[i] = nil
+					req := c.msg()
+					req.Id = uint16(i)
+					rw := dnsserver.NewNonWriterResponseWriter(c.netAddrs())
+					err := h.ServeDNS(c.ctx(), rw, req)
+					obs[i].err = err
+
+					got, res := obs[i], vc03Observe(rec.res[i])
+					if k == 0 {
+						first, firstRes = got, rec.res[i]
+
+						continue
+					}
+
+					was := vc03Observe(firstRes)
+					same := res.Kind == was.Kind && res.Prof == was.Prof && res.Dev == was.Dev &&
+						got.prof == first.prof && got.dev == first.dev && got.ttl == first.ttl &&
+						got.global == first.global && got.served == first.served && (got.err == nil) == (first.err == nil)
+					if !same && first.diverse == "" {
+						first.diverse = fmt.Sprintf("iteration %d: finder %s, handler saw prof=%v dev=%v ttl=%d served=%d err=%v", k, res, got.prof, got.dev, got.ttl, got.served, got.err)
+					}
+				}
+
+				obs[i] = first
+				rec.res[i] = firstRes
+			}(i, c)
+		}
+
+		close(start)
+		wg.Wait()
+
+		outcomes := map[string]bool{}
+		for i, c := range cases {
+			o := obs[i]
+			fail := func(format string, args ...any) {
+				t.Fatalf("C03 concurrent: request %d of %d: "+format+"\ncase: %s", append([]any{i, len(cases)}, append(args, c)...)...)
+			}
+
+			if o.diverse != "" {
+				fail("the same request got different outcomes while other requests were in flight; first: finder %s, handler saw prof=%v dev=%v ttl=%d; then %s",
+					vc03Observe(rec.res[i]), o.prof, o.dev, o.ttl, o.diverse)
+			}
+
+			_, g := vc03Evaluate(t, st, c, rec.res[i])
+			outcomes[g.String()] = true
+
+			switch g.Kind {
+			case vc03Error, vc03UnknownDedicated:
+				if o.served != 0 {
+					fail("a refused request reached the next handler")
+				}
+			case vc03OK:
+				if o.served != 1 || o.result != rec.res[i] || o.prof != g.Prof || o.dev != g.Dev || o.global ||
+					time.Duration(o.ttl)*time.Second != g.Prof.FilteredResponseTTL {
+					fail("recognised as %s, but the next handler saw prof=%v dev=%v ttl=%d served=%d", g, o.prof, o.dev, o.ttl, o.served)
+				}
+
+				st.Class("conc:profile-visible")
+			default:
+				if o.served != 1 || o.prof != nil || o.dev != nil || !o.global || o.ttl != globalTTL {
+					fail("anonymous (%s), but the next handler saw prof=%v dev=%v ttl=%d served=%d", g, o.prof, o.dev, o.ttl, o.served)
+				}
+
+				st.Class("conc:anonymous")
+			}
+		}
+
+		st.Class("conc:batch")
+		if len(outcomes) > 1 {
+			st.Class("conc:distinct-outcomes-in-batch")
 		}
 	})
 }
